@@ -305,6 +305,16 @@ def build(unit, strict=True, mutate=None, pid=None, degrade=(), extras=(), pinne
     rels = [sec.arg or t.meta["source"] for sec in t.sections if sec.kind == "code"]
     for (ty, name) in extras:
         found = False
+        # the item may be an existing function of /repo that is under contract in another unit: import that contract
+        # (stub, proved in its home unit) instead of extracting the body without one
+        home = _contract_home(unit, ty, name, strict, pid)
+        if home is not None:
+            txt, info = home
+            info["status"] = "proved-in:" + info["unit"] if not info.get("home_external") else "assumed (contract stated in unit %s)" % info["unit"]
+            b.stubs.append(info)
+            _emit(b, chunks, txt + "\n", "<stub:%s %s>" % (info["unit"], info["fn"]), False)
+            b.notes.append("AUTO-STUBBED `%s%s` with its contract from unit %s (newly called by the changed source)" % ((ty + "::") if ty else "", name, info["unit"]))
+            continue
         for rel in dict.fromkeys(rels):
             src = source_items(rel)
             if ty is None:
@@ -371,6 +381,22 @@ def imported_spec(other, b):
             continue   # `global size_of` may appear once only; the including unit provides it
         out.append(render(it.toks).strip("\n"))
     return "\n".join(out)
+
+def _contract_home(this_unit, ty, name, strict, pid):
+    """(stub text, info) of fn `ty::name` from the first other unit whose template holds it with a contract, else None"""
+    import glob
+    fnpath = ("%s::%s" % (ty, name)) if ty else name
+    for p in sorted(glob.glob(os.path.join(VERIF, "units", "*.rs"))):
+        u = os.path.basename(p)[:-3]
+        if u == this_unit or u.startswith("_"): continue
+        try:
+            if not re.search(r"\bfn\s+%s\b" % re.escape(name), open(p).read()): continue
+            txt, info = make_stub(u, fnpath, strict, pid)
+        except Exception:
+            continue
+        if re.search(r"\b(requires|ensures)\b", txt):
+            return txt, info
+    return None
 
 def make_stub(unit, fnpath, strict=True, pid=None):
     """external_body stub carrying the contract that `unit`'s template puts on fn `fnpath`
